@@ -70,7 +70,8 @@ def _check_schema(file_to_be_checked, state_manager):
         parser = etree.XMLParser(remove_blank_text=True, remove_comments=True)
         etree.parse(file_to_be_checked, parser)
         state_manager.set_step_status(Status.SUCCESS)
-    except etree.XMLSyntaxError as error:
+    except (etree.XMLSyntaxError, OSError) as error:
+        # reading from a file, lxml reports bytes that are invalid in the document's encoding as an I/O error
         state_manager.set_step_status(Status.FAILED)
         logger.error(error)
         state_manager.add_step('Validate file against official xml schema')
@@ -92,7 +93,7 @@ def _check_schema(file_to_be_checked, state_manager):
         with file_to_be_checked:
             tree = etree.parse(file_to_be_checked)
         aas_xml_schema.assertValid(tree)
-    except (etree.ParseError, etree.DocumentInvalid) as error:
+    except (etree.ParseError, etree.DocumentInvalid, OSError) as error:
         state_manager.set_step_status(Status.FAILED)
         logger.error(error)
         return
@@ -149,7 +150,13 @@ def check_deserialization(file_path: str, state_manager: ComplianceToolStateMana
             state_manager.add_step('Read file {} and check if it is deserializable'.format(file_info))
         else:
             state_manager.add_step('Read file and check if it is deserializable')
-        obj_store = xml_deserialization.read_aas_xml_file(file_to_be_checked, failsafe=True)
+        try:
+            obj_store = xml_deserialization.read_aas_xml_file(file_to_be_checked, failsafe=True)
+        except OSError as error:
+            # reading from a file, lxml reports bytes that are invalid in the document's encoding as an I/O error
+            state_manager.set_step_status(Status.FAILED)
+            logger.error(error)
+            return model.DictObjectStore()
 
     state_manager.set_step_status_from_log()
 
